@@ -23,7 +23,7 @@ import (
 // peer (DESIGN.md §3 C11). Fault enumeration on top of generated reference runs.
 
 type c11Fault struct {
-	Kind   string // none | silent | withhold | cancel | baddata
+	Kind   string // none | silent | withhold | cancel | baddata | resubmit (sign: peer never starts; at Step the caller submits the same topic again, then another topic)
 	Peer   int    // silent: party id
 	K      int    // silent: number of outgoing frames after which the peer is cut off (0 = never starts)
 	J      int    // withhold: index of the withheld frame (counted from the start of the operation)
@@ -204,7 +204,7 @@ func runC11(c c11Case) *vh.Outcome {
 		d := &sim.Driver{Net: net, Sched: &c.Sched, DrainAfterDone: false, HardStop: c11Deadline + c11Grace}
 		callOf := map[int]*sim.Call{}
 		for _, id := range all {
-			if c.Fault.Kind == "silent" && c.Fault.K == 0 && int(id) == c.Fault.Peer {
+			if (c.Fault.Kind == "silent" && c.Fault.K == 0 || c.Fault.Kind == "resubmit") && int(id) == c.Fault.Peer {
 				continue // never starts
 			}
 			var call *sim.Call
@@ -227,6 +227,32 @@ func runC11(c c11Case) *vh.Outcome {
 						info.FaultHit = true
 					}
 					cancels[uint16(c.Fault.Caller)]()
+				}
+			}
+		}
+		if c.Fault.Kind == "resubmit" && c.Op == "sign" {
+			stage := 0
+			caller := uint16(c.Fault.Caller)
+			d.AfterStep = func() {
+				if d.Steps < c.Fault.Step {
+					return
+				}
+				switch stage {
+				case 0:
+					stage = 1
+					if first := callOf[c.Fault.Caller]; first != nil && first.Started && !first.IsDone() {
+						info.FaultHit = true
+					}
+					dup := cl.SignCall(ctxs[caller], caller, signInput, "topic-c11")
+					dup.Name = "resubmitted-same-topic"
+					callOf[1000+c.Fault.Caller] = dup
+					d.Calls = append(d.Calls, dup)
+				case 1:
+					stage = 2
+					next := cl.SignCall(ctxs[caller], caller, signInput, "topic-c11-other")
+					next.Name = "next-call-other-topic"
+					callOf[2000+c.Fault.Caller] = next
+					d.Calls = append(d.Calls, next)
 				}
 			}
 		}
@@ -453,6 +479,14 @@ func TestC11Enum(t *testing.T) {
 					}
 				}
 				if cf.op == "sign" {
+					for s := 0; s <= 40; s += 8 {
+						c := base
+						c.Fault = c11Fault{Kind: "resubmit", Peer: 1 + s%cf.n, Caller: 1 + (s+1)%cf.n, Step: s}
+						if !yield(c) {
+							complete = false
+							return
+						}
+					}
 					for data := 0; data <= 4; data++ {
 						for _, nd := range []bool{false, true} {
 							c := base
@@ -489,7 +523,7 @@ func TestC11Rand(t *testing.T) {
 		c.Sched = genSchedule(t, 400)
 		kinds := []string{"silent", "silent", "withhold", "withhold", "cancel"}
 		if c.Op == "sign" {
-			kinds = append(kinds, "baddata")
+			kinds = append(kinds, "baddata", "resubmit")
 		}
 		c.Fault.Kind = rapid.SampledFrom(kinds).Draw(t, "fault")
 		switch c.Fault.Kind {
@@ -505,6 +539,13 @@ func TestC11Rand(t *testing.T) {
 			c.Fault.Caller = rapid.IntRange(1, c.N).Draw(t, "caller")
 			c.Fault.Data = rapid.IntRange(0, 4).Draw(t, "data")
 			c.NoDeadline = rapid.Bool().Draw(t, "nodeadline")
+		case "resubmit":
+			c.Fault.Peer = rapid.IntRange(1, c.N).Draw(t, "peer")
+			c.Fault.Caller = 1 + (c.Fault.Peer+rapid.IntRange(0, c.N-2).Draw(t, "callerOff"))%c.N
+			if c.Fault.Caller == c.Fault.Peer {
+				c.Fault.Caller = 1 + c.Fault.Peer%c.N
+			}
+			c.Fault.Step = rapid.IntRange(0, 80).Draw(t, "step")
 		}
 		return c
 	}}.Main(t)
